@@ -167,23 +167,24 @@ Section WithCodec.
     destruct (len (E cs1) =? len (E cs2)) eqn:L; cbn [negb].
     2:{ f_equal. symmetry. apply not_true_is_false. intros Heq. apply list_eqb_eq in Heq. subst cs2. lia. }
     destruct cs1 as [|c1 cs1], cs2 as [|c2 cs2].
-    - rewrite (repr_nil _ H1), (repr_nil _ H2). reflexivity.
+    - reflexivity.
     - apply tchars_cons in T2. pose proof (len_E_pos c2 cs2 (proj1 T2)). change (E []) with (@nil Z) in L. rewrite len_nil in L. lia.
     - apply tchars_cons in T1. pose proof (len_E_pos c1 cs1 (proj1 T1)). change (E []) with (@nil Z) in L. rewrite len_nil in L. lia.
-    - rewrite (repr_open _ _ _ H1), (repr_open _ _ _ H2). cbn [bytes cap].
-      rewrite sub_block. cbn [bind].
+    - apply tchars_cons in T1 as T1'. pose proof (len_E_pos c1 cs1 (proj1 T1')). case_if.
+      rewrite (repr_open _ _ _ H1), (repr_open _ _ _ H2). cbn [bytes cap].
+      rewrite sub_prefix. cbn [bind].
       replace (len (E (c1 :: cs1))) with (len (E (c2 :: cs2))) by lia.
-      rewrite sub_block. cbn [bind]. f_equal.
+      rewrite sub_prefix. cbn [bind]. f_equal.
       destruct (list_eqb (c1 :: cs1) (c2 :: cs2)) eqn:Q.
       + apply list_eqb_eq in Q. rewrite Q. apply list_eqb_refl.
-      + apply not_true_is_false. intros Heq. apply list_eqb_eq in Heq. apply app_inv_tail in Heq.
+      + apply not_true_is_false. intros Heq. apply list_eqb_eq in Heq.
         apply E_inj in Heq; auto. rewrite Heq, list_eqb_refl in Q. discriminate Q.
   Qed.
 
   (* ---- text iteration -------------------------------------------------------------------------------------- *)
   Lemma string_iterate_repr s cs : repr s cs -> string_iterate dec s = Ok cs.
   Proof.
-    intros H. destruct cs as [|c cs]; [rewrite (repr_nil _ H); reflexivity|].
+    intros H. destruct cs as [|c cs]; [destruct (repr_nil _ H) as [-> | ->]; reflexivity|].
     pose proof (repr_tchars _ _ H) as T. apply tchars_cons in T as T'. destruct T' as [Hc _].
     rewrite (repr_open _ _ _ H). unfold string_iterate. cbn [cap bytes].
     pose proof (len_E_pos c cs Hc). case_if.
